@@ -29,6 +29,7 @@ use rten_text::pre_tokenizers::{
     self as pt, PreTokenizeError, PreTokenizer, Split, SplitDelimiterBehavior, SplitOptions,
 };
 use rten_text::tokenizer::{Tokenizer, TokenizerError};
+use rten_text::verif::FancyRegex;
 use std::borrow::Cow;
 use std::collections::{BTreeSet, HashMap, HashSet};
 use std::rc::Rc;
@@ -1540,6 +1541,92 @@ fn run(args: &Args) {
             // every (capped) failing text again as a full E case: concrete replay + model comparison
             for (t, pre) in &failing_texts {
                 run_e(&mut out, &mut cache, &cfg, t, pre, Norm::None);
+            }
+        }
+    }
+
+    // ---- S lines: `Split::pre_tokenize` (invert x Remove/Isolate) against the Lean model of its
+    // loop, which works on the regex match list (`find_iter` on the same text and pattern).
+    {
+        let n_s = if args.thorough { 40_000 } else { 3_000 };
+        let mut pats: Vec<&str> = SPLIT_PATTERNS.to_vec();
+        pats.push(pt::GPT2_REGEX);
+        pats.push(r"[^\x00-\x7f]");
+        pats.push(r"\b");
+        for k in 0..n_s {
+            let text = if k < 40 {
+                ["", "a", " ", "a b", "a  b ", " a", "x²", "²", "\n", "a\nb", "1a2", "éé", "😀 😀", "aaa", "xx x"][k % 15].to_string()
+            } else {
+                gen_text(&mut rng, 12)
+            };
+            let pattern = pats[rng.usize_below(pats.len())];
+            let Ok(re) = FancyRegex::new(pattern) else { continue };
+            let mut ms: Vec<(usize, usize)> = Vec::new();
+            let mut regex_err = false;
+            for m in re.find_iter(&text) {
+                match m {
+                    Ok(m) => ms.push((m.start(), m.end())),
+                    Err(_) => regex_err = true,
+                }
+            }
+            if regex_err {
+                out.bucket("S_dropped_regex_err");
+                continue;
+            }
+            for (invert, isolate) in [(true, false), (true, true), (false, false), (false, true)] {
+                let sp = Split::new(SplitOptions {
+                    pattern,
+                    invert,
+                    delimiter: if isolate { SplitDelimiterBehavior::Isolate } else { SplitDelimiterBehavior::Remove },
+                });
+                let Ok(sp) = sp else { continue };
+                let res = hcommon::catch(|| {
+                    sp.pre_tokenize(&text).map(|v| {
+                        v.iter()
+                            .map(|c| {
+                                let st = c.as_ptr() as usize - text.as_ptr() as usize;
+                                (st, st + c.len())
+                            })
+                            .collect::<Vec<_>>()
+                    })
+                });
+                let req = format!(
+                    "S;{};{};{};{}",
+                    invert as u8,
+                    isolate as u8,
+                    text.len(),
+                    join(ms.iter().map(|(a, b)| format!("{a}-{b}")), ",")
+                );
+                let (ans, fail) = match &res {
+                    Err(m) => ("panic".to_string(), Some(format!("panic: pre_tokenize: {m}"))),
+                    Ok(Err(_)) => ("err:regex".to_string(), None),
+                    Ok(Ok(chunks)) => {
+                        // oracle: chunks in order, non-empty, non-overlapping, in bounds, on char
+                        // boundaries; Isolate partitions the text
+                        let mut fail = None;
+                        let mut cur = 0usize;
+                        let mut tiles = true;
+                        for &(a, b) in chunks {
+                            if a >= b || a < cur || b > text.len() || !text.is_char_boundary(a) || !text.is_char_boundary(b) {
+                                fail = Some(format!("split: chunk {a}-{b} empty, out of order, out of bounds or off a char boundary (text {:?}, pattern {:?})", text, pattern));
+                                break;
+                            }
+                            tiles &= a == cur;
+                            cur = b;
+                        }
+                        tiles &= cur == text.len();
+                        if fail.is_none() && isolate && !tiles {
+                            fail = Some(format!("split: Isolate chunks do not partition the text {:?} (pattern {:?})", text, pattern));
+                        }
+                        out.bucket(if tiles { "S_partition" } else { "S_lossy" });
+                        (join(chunks.iter().map(|(a, b)| format!("{a}-{b}")), ","), fail)
+                    }
+                };
+                out.bucket(&format!("S_inv{}_iso{}", invert as u8, isolate as u8));
+                if let Some(m) = &fail {
+                    out.bucket(&format!("propfail_{}", first_word(m)));
+                }
+                out.case(&req, &ans, fail.as_deref(), !text.is_ascii() || ms.len() > 1);
             }
         }
     }
